@@ -157,3 +157,9 @@ pub fn some_bad_encoding() -> crate::master::BadEncoding {
 pub fn some_link_error() -> crate::link::error::LinkError {
     crate::link::error::LinkError::Stdio(std::io::ErrorKind::BrokenPipe)
 }
+pub fn header_info(v: crate::app::Variation, q: crate::app::QualifierCode, is_event: bool, has_flags: bool) -> crate::master::HeaderInfo {
+    crate::master::HeaderInfo::new(v, q, is_event, has_flags)
+}
+pub fn control_field_from(x: u8) -> crate::app::ControlField {
+    crate::app::ControlField::from(x)
+}
